@@ -111,17 +111,7 @@ func C12(c *Ctx) {
 	}
 
 	// ---- R2 entropy
-	seedRoot := `am\.baseSeed`
-	checkArgs(c, []argSpec{
-		{"C12/R2", "airgapped.commits-handler:round-suite-seed", [3]string{"airgapped", "Machine", "handleStateDkgCommitsAwaitConfirmations"}, "github.com/corestario/kyber/pairing/bls12381.NewBLS12381Suite", 0, `sha256\.Sum256\(append\(conv<\[\]byte>\(o\.DKGIdentifier\), ` + seedRoot + `\.\.\.\)\)\[:\]$|^sha256\.Sum256\(.*o\.DKGIdentifier.*` + seedRoot + `.*\)`,
-			"the round's suite is seeded with sha256(roundID ‖ baseSeed) — deterministic and never nil", "an unseeded (nil) or clock-seeded suite makes commitments differ after a restart"},
-		{"C12/R2", "airgapped.commits-handler:dealer-seed", [3]string{"airgapped", "Machine", "handleStateDkgCommitsAwaitConfirmations"}, "dkg.(DKG).InitDKGInstance", 1, `^` + seedRoot + `$|sha256\.Sum256\(.*` + seedRoot,
-			"the dealer's polynomial reader is seeded from the base seed", "dealer polynomial would not be reproducible"},
-		{"C12/R2", "dkg.InitDKGInstance:reader", [3]string{"dkg", "DKG", "InitDKGInstance"}, "lukechampine.com/frand.NewCustom", 0, `^seed$`, "the reader handed to kyber is the deterministic frand stream of the given seed", "frand.New()/crypto randomness would make the dealer polynomial differ on replay"},
-		{"C12/R2", "dkg.InitDKGInstance:generator-reader", [3]string{"dkg", "DKG", "InitDKGInstance"}, "github.com/corestario/kyber/share/dkg/pedersen.NewDistKeyGenerator", 4, `^frand\.NewCustom\(seed, 32, 20\)$`, "kyber draws the secret polynomial from that reader", "other reader"},
-		{"C12/R2", "dkg.InitDKGInstance:generator-suite", [3]string{"dkg", "DKG", "InitDKGInstance"}, "github.com/corestario/kyber/share/dkg/pedersen.NewDistKeyGenerator", 0, `^d\.suite$`, "kyber uses the round's seeded suite", "other suite"},
-		{"C12/R2", "airgapped.commits-handler:init-suite", [3]string{"airgapped", "Machine", "handleStateDkgCommitsAwaitConfirmations"}, "dkg.Init", 0, `^bls12381\.NewBLS12381Suite\(`, "the DKG object gets the round's seeded suite", "other suite"},
-	})
+	c12EntropySpecs(c, "C12/R2")
 	// GenerateKeys: first draw of the base suite's stream
 	if gk := c.Fn("C12/R2", "airgapped", "Machine", "GenerateKeys"); gk != nil {
 		ok := false
@@ -493,4 +483,22 @@ func logComplete(c *Ctx, rule string) {
 		}
 	}
 	r.Check(ok, rule, "airgapped.storeOperation:logs-every-processed-operation", "every processed operation is appended to the durable log (success only past the write)", c.Pos(fn.Pos()), detail)
+}
+
+
+// c12EntropySpecs: the round's secrets are drawn from readers seeded with the base seed (and the round id) alone, built afresh
+// for the round — a function of the mnemonic, not of what the process did before. Evaluated as C12/R2 (replay after a restart)
+// and as C20/R6 (reinitialisation on fresh machines from the same mnemonics).
+func c12EntropySpecs(c *Ctx, rule string) {
+	seedRoot := `am\.baseSeed`
+	checkArgs(c, []argSpec{
+		{rule, "airgapped.commits-handler:round-suite-seed", [3]string{"airgapped", "Machine", "handleStateDkgCommitsAwaitConfirmations"}, "github.com/corestario/kyber/pairing/bls12381.NewBLS12381Suite", 0, `sha256\.Sum256\(append\(conv<\[\]byte>\(o\.DKGIdentifier\), ` + seedRoot + `\.\.\.\)\)\[:\]$|^sha256\.Sum256\(.*o\.DKGIdentifier.*` + seedRoot + `.*\)`,
+			"the round's suite is seeded with sha256(roundID ‖ baseSeed) — deterministic and never nil", "an unseeded (nil) or clock-seeded suite makes commitments differ after a restart"},
+		{rule, "airgapped.commits-handler:dealer-seed", [3]string{"airgapped", "Machine", "handleStateDkgCommitsAwaitConfirmations"}, "dkg.(DKG).InitDKGInstance", 1, `^` + seedRoot + `$|sha256\.Sum256\(.*` + seedRoot,
+			"the dealer's polynomial reader is seeded from the base seed", "dealer polynomial would not be reproducible"},
+		{rule, "dkg.InitDKGInstance:reader", [3]string{"dkg", "DKG", "InitDKGInstance"}, "lukechampine.com/frand.NewCustom", 0, `^seed$`, "the reader handed to kyber is the deterministic frand stream of the given seed", "frand.New()/crypto randomness would make the dealer polynomial differ on replay"},
+		{rule, "dkg.InitDKGInstance:generator-reader", [3]string{"dkg", "DKG", "InitDKGInstance"}, "github.com/corestario/kyber/share/dkg/pedersen.NewDistKeyGenerator", 4, `^frand\.NewCustom\(seed, 32, 20\)$`, "kyber draws the secret polynomial from that reader", "other reader"},
+		{rule, "dkg.InitDKGInstance:generator-suite", [3]string{"dkg", "DKG", "InitDKGInstance"}, "github.com/corestario/kyber/share/dkg/pedersen.NewDistKeyGenerator", 0, `^d\.suite$`, "kyber uses the round's seeded suite", "other suite"},
+		{rule, "airgapped.commits-handler:init-suite", [3]string{"airgapped", "Machine", "handleStateDkgCommitsAwaitConfirmations"}, "dkg.Init", 0, `^bls12381\.NewBLS12381Suite\(`, "the DKG object gets the round's seeded suite", "other suite"},
+	})
 }
